@@ -111,7 +111,7 @@ RenderSeq(doc, i, ctx, cfg, budget) ==
 
 \* the whole document: token 1 is the root svg
 RenderDoc(doc, cfg, paint0) ==
-  RenderElem(doc, 1, <<TF(cfg[3]), R(0), R(0), FALSE, paint0, Id>>, cfg, 3)[2]
+  RenderElem(doc, 1, <<TF(cfg[3]), R(0), R(0), FALSE, paint0, Id>>, cfg, 8)[2]
 
 \* ---- well-formedness of a token sequence --------------------------------------
 RECURSIVE DepthAt(_, _)
